@@ -565,7 +565,11 @@ tx_outs:\n{tx_outs}
                 hash_type=hash_type,
             )
         elif script_pubkey.is_p2tr():
-            if len(tx_in.witness) > 1:
+            # the annex, if any, is not part of the script-path/key-path decision
+            witness_len = len(tx_in.witness)
+            if tx_in.witness.has_annex():
+                witness_len -= 1
+            if witness_len > 1:
                 ext_flag = 1
             else:
                 ext_flag = 0
